@@ -18,13 +18,15 @@ pub struct Cfg {
     pub hostile: bool,
     /// attach `using SafeMath for uint256;`
     pub safemath: bool,
+    /// local variables may take the name of a state variable declared anywhere in the file
+    pub shadow: bool,
 }
 
 impl Cfg {
     pub fn normal() -> Cfg {
         Cfg {
             max_depth: 4, max_stmts: 6, max_parts: 8, max_items: 4, assembly: true, pragma: Some("0.8.17".into()),
-            free_functions: true, exotic_literals: true, hostile: false, safemath: false,
+            free_functions: true, exotic_literals: true, hostile: false, safemath: false, shadow: false,
         }
     }
     pub fn hostile() -> Cfg {
@@ -43,6 +45,7 @@ pub struct Builder {
     fn_names: Vec<String>,
     contract_names: Vec<String>,
     in_loop: bool,
+    all_state_vars: Vec<String>,
 }
 
 const ELEM_TYPES: [&str; 16] = [
@@ -54,10 +57,17 @@ const VALUE_TYPES: [&str; 12] =
 
 impl Builder {
     pub fn new(rng: &Rng, cfg: Cfg) -> Builder {
-        Builder { rng: Rng::from_seed(rng.next()), ids: IdGen(0), cfg, n: 0, state_vars: vec![], locals: vec![], arrays: vec![], fn_names: vec![], contract_names: vec![], in_loop: false }
+        Builder { rng: Rng::from_seed(rng.next()), ids: IdGen(0), cfg, n: 0, state_vars: vec![], locals: vec![], arrays: vec![], fn_names: vec![], contract_names: vec![], in_loop: false, all_state_vars: vec![] }
     }
     fn id(&mut self) -> Id {
         self.ids.next()
+    }
+    fn local_name(&mut self) -> String {
+        if self.cfg.shadow && !self.all_state_vars.is_empty() && self.rng.chance(1, 5) {
+            self.rng.pick(&self.all_state_vars).clone()
+        } else {
+            self.fresh("lv")
+        }
     }
     pub fn fresh(&mut self, prefix: &str) -> String {
         self.n += 1;
@@ -301,6 +311,16 @@ impl Builder {
                 let bn = if self.rng.chance(1, 5) { "other".to_string() } else { an.clone() };
                 let k = self.rng.ps(&["0", "1", "2", "10"]).to_string();
                 let j = if self.rng.chance(1, 5) { "3".to_string() } else { k.clone() };
+                // different arrays whose name and index, written one after the other, read the same: x1[0] and x[10]
+                let (an, bn, k, j) = if self.rng.chance(1, 8) {
+                    match self.rng.below(3) {
+                        0 => (format!("{}1", an), an.clone(), "0".to_string(), "10".to_string()),
+                        1 => (an.clone(), format!("{}1", an), "12".to_string(), "2".to_string()),
+                        _ => (format!("{}2", an), format!("{}20", an), "10".to_string(), "1".to_string()),
+                    }
+                } else {
+                    (an, bn, k, j)
+                };
                 let a1 = self.var(&an);
                 let k1 = self.num(&k);
                 let lhs = self.ex(E::Index(Box::new(a1), Some(Box::new(k1))));
@@ -662,7 +682,7 @@ impl Builder {
 
     fn simple_init(&mut self, depth: usize) -> St {
         if self.rng.chance(2, 3) {
-            let name = self.fresh("lv");
+            let name = self.local_name();
             let ty = self.ty(self.rng.ps(&["uint256", "uint8", "uint"]));
             let init = if self.rng.chance(3, 4) { Some(self.small_expr(depth)) } else { None };
             let init = init.map(|e| self.fin(e));
@@ -686,7 +706,7 @@ impl Builder {
                 self.st(S::Expr(e))
             }
             5 | 6 => {
-                let name = self.fresh("lv");
+                let name = self.local_name();
                 let ty = self.type_expr(1);
                 let ty = self.fin0(ty);
                 let is_ref = matches!(&ty.e, E::Type(t) if t == "string" || t == "bytes") || matches!(&ty.e, E::Index(..) | E::Var(_));
@@ -959,7 +979,7 @@ impl Builder {
             }
             FnKind::Modifier => Some(if self.rng.chance(1, 4) {
                 // names that functions of any contract in the file invoke
-                self.rng.ps(&["nonReentrant", "whenNotPaused", "guarded", "lock", "auth"]).to_string()
+                self.rng.ps(&["nonReentrant", "whenNotPaused", "guarded", "lock", "auth", "onlyOwner", "ownerOnly", "onlyRole"]).to_string()
             } else if self.rng.chance(1, 2) {
                 self.fresh("onlyRole")
             } else {
@@ -1036,7 +1056,7 @@ impl Builder {
                 }
             }
         }
-        if kind == FnKind::Function || kind == FnKind::Constructor {
+        if kind == FnKind::Function || kind == FnKind::Constructor || ((kind == FnKind::Fallback || kind == FnKind::Receive) && self.rng.chance(1, 2)) {
             // modifier invocations, with and without arguments
             for _ in 0..self.rng.below(3) {
                 if self.rng.chance(1, 2) {
@@ -1124,6 +1144,7 @@ impl Builder {
             None
         };
         self.state_vars.push(name.clone());
+        self.all_state_vars.push(name.clone());
         if is_array {
             self.arrays.push(name.clone());
         }
@@ -1185,7 +1206,7 @@ impl Builder {
             4 => {
                 let id = self.id();
                 let braces = self.rng.chance(1, 3);
-                let list = if braces { vec!["helperA".to_string(), "Lib.helperB".to_string()] } else { vec![self.rng.ps(&["MathLib", "Lib.Inner", "Address"]).to_string()] };
+                let list = if braces { vec!["helperA".to_string(), "Lib.helperB".to_string()] } else { vec![self.rng.ps(&["MathLib", "Lib.Inner", "Address", "EnumerableSet", "EnumerableMap"]).to_string()] };
                 let ty = if self.rng.chance(1, 5) {
                     None
                 } else {
